@@ -8,8 +8,12 @@ path of the same file system; if that fails too the mechanism is the operation
 (followed by the class of the greedily minimised value, e.g. `std/save(str-surrogate)`,
 when a single value of the operation fails the same way on a fresh path),
 otherwise it is the class of the path ('prefix-name': the first component
-after '/mem/' starts with a character of the prefix) or the relation of the
-write to the previous content ('overwrite-shorter', 'overwrite-longer',
+after '/mem/' starts with a character of the prefix; 'bare-relative-name' /
+'relative-name': the write spells the path relative to the working directory,
+without / with a directory part) or the relation of the
+write to the previous content ('overwrite-changes-text-binary'
+when the write changes between text and binary
+content, else 'overwrite-shorter', 'overwrite-longer',
 'overwrite-same-length', 'append-existing', 'after-rm', 'first-write').
 
 Histories also hold reader handles that stay open over later operations
@@ -245,8 +249,12 @@ class SeqEntry:
 class World:
   """The model and the checks for one file system."""
 
-  def __init__(self, fs, root, tag, values_same):
+  def __init__(self, fs, root, tag, values_same, relative=False):
+    """`relative`: the working directory is `root` (standard file system);
+    some paths are then spelled relative to it when they are written (the
+    checks read them back by their absolute spelling)."""
     self.fs, self.tag, self.values_same = fs, tag, values_same
+    self.spelling = {}
     self.files, self.seqs, self.dirs = {}, {}, set()
     self.removed = set()
     self.trace = []
@@ -265,6 +273,15 @@ class World:
       self.seq_paths = [f'{r}/s.jsonl', f'{r}/sub/t.jsonl', f'{r}/sub/raw.lines',
                         f'{r}/q{tag}.mem']
       self.dirs.add(r)
+      if relative:
+        for lst, names in ((self.json_paths, [f'bare{tag}.json', f'rel{tag}/c.json',
+                                              f'./dot{tag}.json']),
+                           (self.txt_paths, [f'bare{tag}.txt']),
+                           (self.seq_paths, [f'bare{tag}.jsonl', f'rel{tag}/s.jsonl'])):
+          for name in names:
+            full = os.path.normpath(os.path.join(r, name))
+            lst.append(full)
+            self.spelling[full] = name
     else:
       self.root = MEM
       b = f'/mem/c{tag}'
@@ -305,6 +322,9 @@ class World:
     return sorted(out)
 
   def path_class(self, path):
+    if path in self.spelling:
+      return ('relative-name' if os.path.dirname(self.spelling[path]) else
+              'bare-relative-name')
     if self.fs == 'mem':
       rest = path[len(MEM):]
       if rest and rest[0] in PREFIX_CHARS:
@@ -377,7 +397,8 @@ class World:
     if op.name in ('writefile', 'writefile-bytes'):
       self.ensure_dir(path)       # writefile does not create directories
     try:
-      op.run(path)
+      # (a write may spell its path relative to the working directory)
+      op.run(self.spelling.get(path, path) if op.is_write else path)
       err = None
     except Exception as e:  # pylint: disable=broad-except
       err = e
@@ -626,7 +647,10 @@ class World:
       new = sum(len(ln) + 1 for _, ln in op.items())
       old = len(before.content())
     else:
-      new, old = len(op.entry().content), len(before.content)
+      e = op.entry()
+      if (e.kind == 'bytes') != (before.kind == 'bytes'):
+        return 'overwrite-changes-text-binary'
+      new, old = len(e.content), len(before.content)
     if new < old:
       return 'overwrite-shorter'
     return 'overwrite-longer' if new > old else 'overwrite-same-length'
@@ -731,8 +755,8 @@ class World:
           op.probe3 = self.replay_fails(op, op.before, reader=True)
         if clause in op.probe3 or '*' in op.probe3:
           return op.last.split('-')[0] + '+open-reader'
-    if self.path_class(op.path) == 'prefix-name':
-      return 'prefix-name'
+    if self.path_class(op.path) != 'plain':
+      return self.path_class(op.path)
     return op.last or 'plain'
 
   def replay_fails(self, op, before, reader=False):
